@@ -900,15 +900,17 @@ class RepositoryMachine(Machine):
         if kind == "adf12":
             blocks = []
             for i, tr in enumerate(op["trs"]):
-                blocks.append(dict(upper=tr[0], lower=tr[1], qref=1e-8 * f, refs=[4e4, 1e3, 1e13, 2.0, 3.0], eb=[1e3, 1e4 * f, 1e5],
-                                   qeb=[1e-9, 2e-9 * f, 3e-9], ti=[100.0, 1000.0], qti=[1e-9 * f, 2e-9], ni=[1e12, 1e13],
-                                   qni=[1e-9, 1.1e-9 * f], z=[1.0, 2.0], qz=[1e-9, 1.2e-9], b=[1.0, 3.0], qb=[1e-9 * f, 1.3e-9]))
+                g = 1.0 + 0.01 * tr[0] + 0.001 * tr[1]          # every block of a file carries its own numbers
+                blocks.append(dict(upper=tr[0], lower=tr[1], qref=1e-8 * f * g, refs=[4e4, 1e3, 1e13, 2.0, 3.0], eb=[1e3, 1e4 * f, 1e5],
+                                   qeb=[1e-9 * g, 2e-9 * f, 3e-9], ti=[100.0, 1000.0], qti=[1e-9 * f, 2e-9 * g], ni=[1e12, 1e13],
+                                   qni=[1e-9 * g, 1.1e-9 * f], z=[1.0, 2.0], qz=[1e-9, 1.2e-9 * g], b=[1.0, 3.0], qb=[1e-9 * f, 1.3e-9 * g]))
             return W.adf12(blocks)
         if kind == "adf15":
             blocks = []
             for b in op["blocks"]:
+                g = 1.0 + 0.01 * b["tr"][0] + 0.001 * b["tr"][1] + {"EXCIT": 0.0, "RECOM": 0.1, "CHEXC": 0.2}[b["type"]]
                 blocks.append(dict(wl=6561.9 + 10 * b["tr"][0], upper=b["tr"][0], lower=b["tr"][1], type=b["type"], ne=[1e10, 1e12 * f],
-                                   te=[1.0, 10.0, 100.0], rate=[[1e-9 * f, 2e-9, 3e-9], [4e-9, 5e-9, 6e-9 * f]]))
+                                   te=[1.0, 10.0, 100.0], rate=[[1e-9 * f * g, 2e-9, 3e-9 * g], [4e-9, 5e-9 * g, 6e-9 * f]]))
             return W.adf15_hydrogen(blocks)
         return W.adf2x(op["ch"], op["sp"], [1e3, 2e3 * f, 5e3], [1e12, 1e13], [[1e-7 * f, 2e-7], [3e-7, 4e-7], [5e-7, 6e-7 * f]],
                        [10.0, 100.0, 1000.0 * f, 2000.0], [1e-7, 2e-7, 3e-7 * f, 4e-7])
@@ -1027,6 +1029,33 @@ class RepositoryMachine(Machine):
                     if ha != hb or va != vb:
                         raise Violation("install-stale-source", op["kind"], "key %r: the repository with an older cached copy of the file holds "
                                         "%s, a pristine repository holds %s after the same install call" % (ckey(fam, root, key), ha, hb))
+            finally:
+                ROOTS[:] = saved
+        part_key = {"adf15": "blocks", "adf12": "trs"}.get(op["kind"])
+        if part_key and raised is None and not c.fault_mode and len(op[part_key]) > 1:
+            # differential oracle: a key installed from a file with several blocks holds what the same block installed on its own
+            # gives (blocks in file order into one pristine repository, so a repeated key is won by the last block in both)
+            c.ntwin = getattr(c, "ntwin", 0) + 1
+            saved = ROOTS[:]
+            ROOTS.append("/sim/twin%d" % c.ntwin)
+            try:
+                for j, part in enumerate(op[part_key]):
+                    top = dict(op, root=len(ROOTS) - 1, download=False, stale_cache=False, file="adf/%s/single-%d-%d.dat" % (op["kind"], c.ntwin, j))
+                    top[part_key] = [part]
+                    c.fs.add_file(os.path.join(c.cfg["adas_path"], top["file"]), self._adf_text(top))
+                    tfn, _tk = self._install_plan(c, top)
+                    try:
+                        tfn()
+                    except Exception as e:
+                        raise Violation("install-block-dependence", op["kind"], "block %r installs as part of a %d-block file but raises %s: %s "
+                                        "on its own" % (part, len(op[part_key]), type(e).__name__, e))
+                for (fam, key) in keys:
+                    ha, va = self._read(c, fam, key, root)
+                    hb, vb = self._read(c, fam, key, len(ROOTS) - 1)
+                    if ha != hb or va != vb:
+                        raise Violation("install-block-dependence", op["kind"], "key %r: installed from the %d-block file it holds %s, the same "
+                                        "block installed on its own gives %s" % (ckey(fam, root, key), len(op[part_key]), ha if ha != "ok" else "other values", hb))
+                env.probe("install_blocks_compared_with_single_block_files")
             finally:
                 ROOTS[:] = saved
         self._audit(c, env, "install %s" % op["kind"], unconstrained=set(covered))
